@@ -17,6 +17,10 @@ def run(ctx):
     system.engine_traces(ctx, t, "shutdown")
     t = system.record(ctx, "rotate-fail", test="TestVerifRotateFail")
     system.validate(ctx, t, ["TrFd"], "Rotate failing on a later address")
+    if vlib.have_strace():
+        # engine start-up failing half way (epoll_create1 / eventfd2 failed by strace): everything created so far is closed
+        t = system.record(ctx, "start-faults", test="TestVerifStartFaults")
+        system.validate(ctx, t, ["TrFd"], "engine start-up failing half way")
     t = system.record(ctx, "client", test="TestVerifClient")
     system.validate(ctx, t, ["TrFd"], "client engine (Dial / Enroll), descriptor ledger")
     ctx.assumptions += system.SYS_ASSUME
